@@ -91,55 +91,7 @@ func runC01(r *Run) {
 		)
 	}
 
-	// --- C01.verify.flow
-	if f := r.fn(P, pkgIJWS, "VerifyJWS"); f != nil {
-		r.requireSucc(P+".verify.flow.VerifyJWS",
-			"if this fails, a JWS whose payload or protected header was altered, or that was signed by another key, verifies",
-			f, core.Ctx{}, "",
-			"cmp(<result> == internal/jws.ParseJWS($0, ...))",
-			"ok(internal/jws.VerifySignature($1, <result>.signature, internal/jws.signingInput(<result>.ProtectedHeaders, <result>.Payload)))",
-		)
-	}
-	if f := r.fn(P, pkgIJWS, "VerifySignature"); f != nil {
-		r.requireEachSuccess(P+".verify.flow.VerifySignature",
-			"if this fails, some key type is accepted without its signature being checked against the message",
-			f, core.Ctx{},
-			[]string{"ok(internal/jws.verifyECSignature($0, $1, $2))"},
-			[]string{"ok(internal/jws.verifyEd25519Signature($0, $1, $2))"})
-	}
-	if f := r.fn(P, pkgIJWS, "verifyEd25519Signature"); f != nil {
-		r.requireSucc(P+".verify.flow.ed25519",
-			"if this fails, an Ed25519 signature is accepted without ed25519.Verify(pub(jwk), msg, signature) being true",
-			f, core.Ctx{}, "",
-			"true(crypto/ed25519.Verify(internal/jws.GetED25519PublicKey($0), $2, $1))",
-		)
-	}
-	if f := r.fn(P, pkgIJWS, "verifyECSignature"); f != nil {
-		b, ok := r.requireSucc(P+".verify.flow.ecdsa",
-			"if this fails, an ECDSA signature is accepted without ecdsa.Verify(pub(jwk), H(msg), r, s) being true for the two halves of the signature",
-			f, core.Ctx{}, "",
-			"true(crypto/ecdsa.Verify(?pub, ?hash, ?r, ?s))",
-			"ok(JWK.UnmarshalJSON(?ijwk, encoding/json.Marshal($0)))",
-			"cmp(len($1) == (2 * ?ks))",
-		)
-		if ok {
-			// r and s are the two halves of the signature parameter
-			rs, ss := b["?r"], b["?s"]
-			_ = rs
-			_ = ss
-			rOK := b["r"] != nil && strings.Contains(b["r"].String(), "$signature[:") || strings.Contains(b["r"].String(), "$signature[:")
-			sOK := b["s"] != nil && strings.Contains(b["s"].String(), "$signature[")
-			pubOK := b["pub"] != nil && strings.Contains(b["pub"].String(), b["ijwk"].String())
-			hashOK := b["hash"] != nil && strings.Contains(b["hash"].String(), "Sum(")
-			// the hash writer received msg
-			msgOK := core.HasFact(r.succ(f, core.Ctx{}).Facts, "ok(io.Writer.Write(_, $2))")
-			r.R.Check(rOK && sOK && pubOK && hashOK && msgOK, P+".verify.flow.ecdsa.operands",
-				"E13 ArgIs: ecdsa.Verify operands derive from (jwk, hash of msg, signature halves)", core.FuncName(f), r.where(f),
-				"if this fails, the verified triple is not the (key, message, signature) that was presented",
-				fmt.Sprintf("pub=%s hash=%s r=%s s=%s", short(b["pub"].String(), 80), short(b["hash"].String(), 60), short(b["r"].String(), 80), short(b["s"].String(), 80)),
-				fmt.Sprintf("operand provenance: r:%v s:%v pub:%v hash:%v msgHashed:%v (pub=%s r=%s s=%s)", rOK, sOK, pubOK, hashOK, msgOK, b["pub"], b["r"], b["s"]))
-		}
-	}
+	r.checkVerifyFlow(P)
 
 	// --- C01.reveal.<type> in both modes
 	for _, role := range opRoles {
@@ -313,4 +265,58 @@ func phiLeaves(v ssa.Value) []ssa.Value {
 	}
 	rec(v)
 	return out
+}
+
+// checkVerifyFlow: VerifyJWS / VerifySignature / verifyEC / verifyEd25519 flow obligations (shared by C01 and C09).
+func (r *Run) checkVerifyFlow(P string) {
+	// --- C01.verify.flow
+	if f := r.fn(P, pkgIJWS, "VerifyJWS"); f != nil {
+		r.requireSucc(P+".verify.flow.VerifyJWS",
+			"if this fails, a JWS whose payload or protected header was altered, or that was signed by another key, verifies",
+			f, core.Ctx{}, "",
+			"cmp(<result> == internal/jws.ParseJWS($0, ...))",
+			"ok(internal/jws.VerifySignature($1, <result>.signature, internal/jws.signingInput(<result>.ProtectedHeaders, <result>.Payload)))",
+		)
+	}
+	if f := r.fn(P, pkgIJWS, "VerifySignature"); f != nil {
+		r.requireEachSuccess(P+".verify.flow.VerifySignature",
+			"if this fails, some key type is accepted without its signature being checked against the message",
+			f, core.Ctx{},
+			[]string{"ok(internal/jws.verifyECSignature($0, $1, $2))"},
+			[]string{"ok(internal/jws.verifyEd25519Signature($0, $1, $2))"})
+	}
+	if f := r.fn(P, pkgIJWS, "verifyEd25519Signature"); f != nil {
+		r.requireSucc(P+".verify.flow.ed25519",
+			"if this fails, an Ed25519 signature is accepted without ed25519.Verify(pub(jwk), msg, signature) being true",
+			f, core.Ctx{}, "",
+			"true(crypto/ed25519.Verify(internal/jws.GetED25519PublicKey($0), $2, $1))",
+		)
+	}
+	if f := r.fn(P, pkgIJWS, "verifyECSignature"); f != nil {
+		b, ok := r.requireSucc(P+".verify.flow.ecdsa",
+			"if this fails, an ECDSA signature is accepted without ecdsa.Verify(pub(jwk), H(msg), r, s) being true for the two halves of the signature",
+			f, core.Ctx{}, "",
+			"true(crypto/ecdsa.Verify(?pub, ?hash, ?r, ?s))",
+			"ok(JWK.UnmarshalJSON(?ijwk, encoding/json.Marshal($0)))",
+			"cmp(len($1) == (2 * ?ks))",
+		)
+		if ok {
+			// r and s are the two halves of the signature parameter
+			rs, ss := b["?r"], b["?s"]
+			_ = rs
+			_ = ss
+			rOK := b["r"] != nil && strings.Contains(b["r"].String(), "$signature[:") || strings.Contains(b["r"].String(), "$signature[:")
+			sOK := b["s"] != nil && strings.Contains(b["s"].String(), "$signature[")
+			pubOK := b["pub"] != nil && strings.Contains(b["pub"].String(), b["ijwk"].String())
+			hashOK := b["hash"] != nil && strings.Contains(b["hash"].String(), "Sum(")
+			// the hash writer received msg
+			msgOK := core.HasFact(r.succ(f, core.Ctx{}).Facts, "ok(io.Writer.Write(_, $2))")
+			r.R.Check(rOK && sOK && pubOK && hashOK && msgOK, P+".verify.flow.ecdsa.operands",
+				"E13 ArgIs: ecdsa.Verify operands derive from (jwk, hash of msg, signature halves)", core.FuncName(f), r.where(f),
+				"if this fails, the verified triple is not the (key, message, signature) that was presented",
+				fmt.Sprintf("pub=%s hash=%s r=%s s=%s", short(b["pub"].String(), 80), short(b["hash"].String(), 60), short(b["r"].String(), 80), short(b["s"].String(), 80)),
+				fmt.Sprintf("operand provenance: r:%v s:%v pub:%v hash:%v msgHashed:%v (pub=%s r=%s s=%s)", rOK, sOK, pubOK, hashOK, msgOK, b["pub"], b["r"], b["s"]))
+		}
+	}
+
 }
